@@ -1119,6 +1119,10 @@ func TestVerifH2(t *testing.T) {
 		nHist = int(v)
 	}
 	only := vhEnvInt("VERIF_HIST", -1)
+	if only < 0 {
+		h2RealSockets(vt)
+		vt.Flush()
+	}
 	for i := 0; i < nHist; i++ {
 		if only >= 0 && int64(i) != only {
 			continue
